@@ -1,7 +1,11 @@
 import CollectionsC.Proofs.DequeCross
 import CollectionsC.Proofs.Growth
-/-! Geometric growth of the deque (C20): the allocation count of a run of `add_first`/`add_last` calls is
-the abstract capacity process `CC.Growth.appends` with `grow c = c << 1`. -/
+/-! Geometric growth of the deque (C20).  A run of `add_first`/`add_last` calls
+* under **any** refusal schedule performs at most `log2 (size + n) + 1` successful buffer allocations
+  (`pushAll_realloc_le`), and
+* under a never-refusing allocator below the capacity limit is exactly the abstract capacity process
+  `CC.Growth.appends` with `grow c = c << 1` (`pushAll_growth`).
+Allocations are counted on the deque's own triple (`allocsOf d.triple`). -/
 namespace CC.Deque
 open CC
 
@@ -9,12 +13,12 @@ open CC
 def pushEnd (d : Deque) (fx : Bool × Nat) (m : Mem) : Stat × Deque × Mem :=
   if fx.1 then d.addFirst fx.2 m else d.addLast fx.2 m
 
-/-- a run of insertions at the ends -/
+/-- a run of insertions at the ends (a refused one changes nothing and the run goes on) -/
 def pushAll (d : Deque) (m : Mem) : List (Bool × Nat) → Deque × Mem
   | [] => (d, m)
   | fx :: rest => pushAll (pushEnd d fx m).2.1 (pushEnd d fx m).2.2 rest
 
-/-- the ideal content after such a run -/
+/-- the ideal content after such a run when nothing is refused -/
 def pushAllSpec (l : List Nat) : List (Bool × Nat) → List Nat
   | [] => l
   | fx :: rest => pushAllSpec (if fx.1 then fx.2 :: l else l ++ [fx.2]) rest
@@ -22,124 +26,236 @@ def pushAllSpec (l : List Nat) : List (Bool × Nat) → List Nat
 /-- `capacity << 1` -/
 def dbl (c : Nat) : Nat := 2 * c
 
-theorem alloc_nil_eq (m : Mem) (hs : m.sched = []) :
-    m.alloc.1 = true ∧ m.alloc.2.nalloc = m.nalloc + 1 ∧ m.alloc.2.sched = [] ∧ m.alloc.2.live = m.live + 1 := by
-  unfold Mem.alloc; rw [hs]; exact ⟨rfl, rfl, rfl, rfl⟩
+theorem pushEnd_triple (d : Deque) (fx : Bool × Nat) (m : Mem) : (pushEnd d fx m).2.1.triple = d.triple := by
+  unfold pushEnd; split
+  · exact addFirst_triple d _ m
+  · exact addLast_triple d _ m
 
-theorem free_nalloc (m : Mem) : m.free.nalloc = m.nalloc := by unfold Mem.free; split <;> rfl
-
-/-- one insertion under a never-refusing allocator below the capacity limit: always `CC_OK`; the
-buffer is re-allocated (exactly one allocator call, capacity doubled) iff the deque was full -/
-theorem pushEnd_step (d : Deque) (fx : Bool × Nat) (m : Mem) (hi : d.Inv) (hs : m.sched = [])
-    (hb : d.size < Gen.MAX_POW_TWO) :
-    (pushEnd d fx m).1 = .ok ∧ (pushEnd d fx m).2.1.Inv ∧ (pushEnd d fx m).2.1.size = d.size + 1 ∧
-    (pushEnd d fx m).2.1.abs = (if fx.1 then fx.2 :: d.abs else d.abs ++ [fx.2]) ∧
-    (pushEnd d fx m).2.2.sched = [] ∧
-    (d.size < d.cap → (pushEnd d fx m).2.1.cap = d.cap ∧ (pushEnd d fx m).2.2.nalloc = m.nalloc) ∧
-    (¬ d.size < d.cap → (pushEnd d fx m).2.1.cap = dbl d.cap ∧ (pushEnd d fx m).2.2.nalloc = m.nalloc + 1) := by
+/-- the three things one insertion can do, with the exact allocation count on the deque's triple -/
+theorem pushEnd_cases (d : Deque) (fx : Bool × Nat) (m : Mem) (hi : d.Inv) :
+    ((pushEnd d fx m).1 = .ok ∧ (pushEnd d fx m).2.1.Inv ∧
+      (pushEnd d fx m).2.1.abs = (if fx.1 then fx.2 :: d.abs else d.abs ++ [fx.2]) ∧
+      memSame d.triple (pushEnd d fx m).2.2 m ∧
+      ((d.size < d.cap ∧ (pushEnd d fx m).2.1.cap = d.cap ∧
+          allocsOf d.triple (pushEnd d fx m).2.2 = allocsOf d.triple m) ∨
+       (d.size = d.cap ∧ (pushEnd d fx m).2.1.cap = dbl d.cap ∧
+          allocsOf d.triple (pushEnd d fx m).2.2 = allocsOf d.triple m + 1))) ∨
+    ((pushEnd d fx m).1 = .errAlloc ∧ (pushEnd d fx m).2.1 = d ∧ memSame d.triple (pushEnd d fx m).2.2 m ∧
+      allocsOf d.triple (pushEnd d fx m).2.2 = allocsOf d.triple m ∧ d.size = d.cap ∧
+      ((m.allocT d.triple).1 = false ∨ d.cap = Gen.MAX_POW_TWO)) := by
   have hsz := hi.2.2.2.2.2
-  obtain ⟨al1, al2, al3, al4⟩ := alloc_nil_eq m hs
-  -- the ledger after the call, in both cases
-  have hmem : ∀ (r : Stat × Deque × Mem), r.1 = .ok →
-      (r = (if fx.1 then d.addFirst fx.2 m else d.addLast fx.2 m)) →
-      (d.size < d.cap → r.2.2.nalloc = m.nalloc) ∧ (¬ d.size < d.cap → r.2.2.nalloc = m.nalloc + 1) := by
-    intro r _ hr
-    by_cases hlt : d.size < d.cap
-    · refine ⟨fun _ => ?_, fun h => absurd hlt h⟩
-      rw [hr]
+  -- the ledger after the call
+  have hmem : (d.size < d.cap → (pushEnd d fx m).2.2 = m) ∧
+      (d.size = d.cap → d.cap ≠ Gen.MAX_POW_TWO → (m.allocT d.triple).1 = true →
+        (pushEnd d fx m).2.2 = (m.allocT d.triple).2.freeT d.triple) ∧
+      (d.size = d.cap → d.cap ≠ Gen.MAX_POW_TWO → (m.allocT d.triple).1 = false →
+        (pushEnd d fx m).2.2 = (m.allocT d.triple).2) ∧
+      (d.size = d.cap → d.cap = Gen.MAX_POW_TWO → (pushEnd d fx m).2.2 = m) := by
+    refine ⟨fun hlt => ?_, fun hfull hc ha => ?_, fun hfull hc ha => ?_, fun hfull hc => ?_⟩
+    · unfold pushEnd
       cases fx.1
       · simp only [Bool.false_eq_true, if_false]
         unfold addLast; rw [if_neg (by omega)]
-        rw [(addLastCore_spec d fx.2 m hi hlt).2.2.2.1]
+        exact (addLastCore_spec d fx.2 m hi hlt).2.2.2.1
       · simp only [if_true]
         unfold addFirst; rw [if_neg (by omega)]
-        rw [(addFirstCore_spec d fx.2 m hi hlt).2.2.2.1]
-    · refine ⟨fun h => absurd h hlt, fun _ => ?_⟩
-      have hfull : d.cap = d.size := by omega
-      have hc : d.cap ≠ Gen.MAX_POW_TWO := by omega
-      have he := expandCapacity_grow d m hc al1
+        exact (addFirstCore_spec d fx.2 m hi hlt).2.2.2.1
+    · have he := expandCapacity_grow d m hc ha
       have heok : (d.expandCapacity m).1 = .ok := by rw [he]
       obtain ⟨e1, _, e3, e4, _⟩ := expandCapacity_ok d m hi heok
       have hcap2 : d.cap <<< 1 = 2 * d.cap := by simp [Nat.shiftLeft_eq]; omega
-      have hcb := (copyBuffer_none d (Buf.mk (d.cap <<< 1)) m.alloc.2 hi (by simp [hcap2]; omega)).2.1
-      have hemem : (d.expandCapacity m).2.2 = m.alloc.2.free := by rw [he]; simp only; rw [hcb]
+      have hcb := (copyBuffer_none d (Buf.mk (d.cap <<< 1)) (m.allocT d.triple).2 hi (by simp [hcap2]; omega)).2.1
+      have hemem : (d.expandCapacity m).2.2 = (m.allocT d.triple).2.freeT d.triple := by rw [he]; simp only; rw [hcb]
       have hroom : (d.expandCapacity m).2.1.size < (d.expandCapacity m).2.1.cap := by
         rw [e3, e4]; have := Inv.cap_pos hi; omega
-      rw [hr]
+      have hne : ((d.expandCapacity m).1 != Stat.ok) = false := by simp [heok]
+      unfold pushEnd
       cases fx.1
       · simp only [Bool.false_eq_true, if_false]
-        unfold addLast; rw [if_pos hfull]
-        have hne : ((d.expandCapacity m).1 != Stat.ok) = false := by simp [heok]
+        unfold addLast; rw [if_pos hfull.symm]
         simp only [hne, Bool.false_eq_true, if_false]
-        rw [(addLastCore_spec _ fx.2 _ e1 hroom).2.2.2.1, hemem, free_nalloc, al2]
+        rw [(addLastCore_spec _ fx.2 _ e1 hroom).2.2.2.1, hemem]
       · simp only [if_true]
         unfold addFirst; rw [if_pos (by omega)]
-        have hne : ((d.expandCapacity m).1 != Stat.ok) = false := by simp [heok]
         simp only [hne, Bool.false_eq_true, if_false]
-        rw [(addFirstCore_spec _ fx.2 _ e1 hroom).2.2.2.1, hemem, free_nalloc, al2]
-  unfold pushEnd
-  cases hfx : fx.1
-  · simp only [Bool.false_eq_true, if_false]
-    rcases addLast_spec d fx.2 m hi with ⟨a1, a2, a3, a4, a5, _⟩ | ⟨_, _, _, a4, a5⟩
-    · have hm := hmem (d.addLast fx.2 m) a1 (by rw [hfx]; simp)
-      have hsize : (d.addLast fx.2 m).2.1.size = d.size + 1 := by
-        have := congrArg List.length a3; simpa using this
-      refine ⟨a1, a2, hsize, a3, a4.2.2.2 hs, fun h => ⟨by rw [a5, if_neg (by omega)], hm.1 h⟩,
-        fun h => ⟨by rw [a5, if_pos (by omega)]; rfl, hm.2 h⟩⟩
-    · exfalso
-      rcases a5 with a5 | a5
-      · rw [a5] at al1; exact absurd al1 (by decide)
+        rw [(addFirstCore_spec _ fx.2 _ e1 hroom).2.2.2.1, hemem]
+    · have he := expandCapacity_refused d m hc ha
+      unfold pushEnd
+      cases fx.1
+      · simp only [Bool.false_eq_true, if_false]
+        unfold addLast; rw [if_pos hfull.symm, he]; rfl
+      · simp only [if_true]
+        unfold addFirst; rw [if_pos (by omega), he]; rfl
+    · have he := expandCapacity_max d m hc
+      unfold pushEnd
+      cases fx.1
+      · simp only [Bool.false_eq_true, if_false]
+        unfold addLast; rw [if_pos hfull.symm, he]; rfl
+      · simp only [if_true]
+        unfold addFirst; rw [if_pos (by omega), he]; rfl
+  obtain ⟨m1, m2, m3, m4⟩ := hmem
+  have hal := allocT_allocsOf d.triple m
+  -- status, state: from the two specs
+  have hspec : ((pushEnd d fx m).1 = .ok ∧ (pushEnd d fx m).2.1.Inv ∧
+        (pushEnd d fx m).2.1.abs = (if fx.1 then fx.2 :: d.abs else d.abs ++ [fx.2]) ∧
+        memSame d.triple (pushEnd d fx m).2.2 m ∧
+        (pushEnd d fx m).2.1.cap = (if d.size = d.cap then 2 * d.cap else d.cap) ∧
+        (d.size = d.cap → (m.allocT d.triple).1 = true ∧ d.cap ≠ Gen.MAX_POW_TWO)) ∨
+      ((pushEnd d fx m).1 = .errAlloc ∧ (pushEnd d fx m).2.1 = d ∧ memSame d.triple (pushEnd d fx m).2.2 m ∧
+        d.size = d.cap ∧ ((m.allocT d.triple).1 = false ∨ d.cap = Gen.MAX_POW_TWO)) := by
+    unfold pushEnd
+    cases hfx : fx.1
+    · simp only [Bool.false_eq_true, if_false]; exact addLast_spec d fx.2 m hi
+    · simp only [if_true]; exact addFirst_spec d fx.2 m hi
+  rcases hspec with ⟨a1, a2, a3, a4, a5, a6⟩ | ⟨a1, a2, a3, a4, a5⟩
+  · left
+    refine ⟨a1, a2, a3, a4, ?_⟩
+    by_cases hlt : d.size < d.cap
+    · exact Or.inl ⟨hlt, by rw [a5, if_neg (by omega)], by rw [m1 hlt]⟩
+    · have hfull : d.size = d.cap := by omega
+      obtain ⟨b1, b2⟩ := a6 hfull
+      refine Or.inr ⟨hfull, by rw [a5, if_pos hfull]; rfl, ?_⟩
+      rw [m2 hfull b2 b1, (freeT_allocsOf d.triple _).1, hal.1 b1]
+  · right
+    refine ⟨a1, a2, a3, ?_, a4, a5⟩
+    by_cases hc : d.cap = Gen.MAX_POW_TWO
+    · rw [m4 a4 hc]
+    · rcases a5 with a5 | a5
+      · rw [m3 a4 hc a5, hal.2 a5]
+      · exact absurd a5 hc
+
+/-- **any schedule**: the number of successful buffer allocations of a run of `n` insertions is
+logarithmic — if there were `g ≥ 1` of them then `2^(g-1) · capacity ≤ size + n - 1` -/
+theorem pushAll_doubling (l : List (Bool × Nat)) (d : Deque) (m : Mem) (hi : d.Inv) :
+    (pushAll d m l).1.Inv ∧ (pushAll d m l).1.triple = d.triple ∧ (pushAll d m l).1.size ≤ d.size + l.length ∧
+    d.cap ≤ (pushAll d m l).1.cap ∧ allocsOf d.triple m ≤ allocsOf d.triple (pushAll d m l).2 ∧
+    memSame d.triple (pushAll d m l).2 m ∧
+    (1 ≤ allocsOf d.triple (pushAll d m l).2 - allocsOf d.triple m →
+      2 ^ (allocsOf d.triple (pushAll d m l).2 - allocsOf d.triple m - 1) * d.cap ≤ d.size + l.length - 1) := by
+  induction l generalizing d m with
+  | nil => exact ⟨hi, rfl, Nat.le_refl _, Nat.le_refl _, Nat.le_refl _, memSame_refl _ m, fun h => by simp [pushAll] at h⟩
+  | cons fx rest ih =>
+    have htr := pushEnd_triple d fx m
+    simp only [pushAll, List.length_cons]
+    rcases pushEnd_cases d fx m hi with ⟨_, s2, s3, s4, s5⟩ | ⟨_, s2, s3, s4, _⟩
+    · obtain ⟨r1, r2, r3, r4, r5, r6, r7⟩ := ih (pushEnd d fx m).2.1 (pushEnd d fx m).2.2 s2
+      rw [htr] at r2 r5 r6 r7
+      have hsize : (pushEnd d fx m).2.1.size = d.size + 1 := by
+        have := congrArg List.length s3
+        rw [abs_length] at this
+        rw [this]; split <;> simp
+      rw [hsize] at r3 r7
+      rcases s5 with ⟨c1, c2, c3⟩ | ⟨c1, c2, c3⟩
+      · rw [c2] at r4 r7
+        rw [c3] at r5 r7
+        exact ⟨r1, r2, by omega, r4, r5, memSame_trans r6 s4, fun h => by have := r7 h; omega⟩
+      · rw [c2] at r4 r7
+        rw [c3] at r5 r7
+        unfold dbl at r4 r7
+        refine ⟨r1, r2, by omega, by omega, by omega, memSame_trans r6 s4, fun _ => ?_⟩
+        by_cases hk : 1 ≤ allocsOf d.triple (pushAll (pushEnd d fx m).2.1 (pushEnd d fx m).2.2 rest).2 -
+            (allocsOf d.triple m + 1)
+        · have h3 := r7 hk
+          have h5 : 2 ^ (allocsOf d.triple (pushAll (pushEnd d fx m).2.1 (pushEnd d fx m).2.2 rest).2 -
+              allocsOf d.triple m - 1) = 2 ^ (allocsOf d.triple (pushAll (pushEnd d fx m).2.1
+              (pushEnd d fx m).2.2 rest).2 - (allocsOf d.triple m + 1) - 1) * 2 := by
+            rw [← Nat.pow_succ]; congr 1; omega
+          rw [h5, Nat.mul_assoc]
+          omega
+        · have : allocsOf d.triple (pushAll (pushEnd d fx m).2.1 (pushEnd d fx m).2.2 rest).2 -
+              allocsOf d.triple m - 1 = 0 := by omega
+          rw [this]; simp; omega
+    · obtain ⟨r1, r2, r3, r4, r5, r6, r7⟩ := ih (pushEnd d fx m).2.1 (pushEnd d fx m).2.2 (by rw [s2]; exact hi)
+      rw [htr] at r2 r5 r6 r7
+      have e1 : (pushEnd d fx m).2.1.size = d.size := by rw [s2]
+      have e2 : (pushEnd d fx m).2.1.cap = d.cap := by rw [s2]
+      rw [e1] at r3 r7
+      rw [e2] at r4 r7
+      rw [s4] at r5 r7
+      exact ⟨r1, r2, by omega, r4, r5, memSame_trans r6 s3, fun h => by have := r7 h; omega⟩
+
+/-- **O(log n) buffer re-allocations, every refusal schedule**: `n` insertions at the ends of a deque
+holding `size` elements make at most `log2 (size + n) + 1` successful allocator calls, whatever the initial
+capacity, ring layout and pattern of refusals -/
+theorem pushAll_realloc_le (l : List (Bool × Nat)) (d : Deque) (m : Mem) (hi : d.Inv) :
+    allocsOf d.triple (pushAll d m l).2 - allocsOf d.triple m ≤ Nat.log2 (d.size + l.length) + 1 := by
+  obtain ⟨_, _, _, _, _, _, r7⟩ := pushAll_doubling l d m hi
+  have hc := Inv.cap_pos hi
+  by_cases hk : 1 ≤ allocsOf d.triple (pushAll d m l).2 - allocsOf d.triple m
+  · have h3 := r7 hk
+    have h4 : 2 ^ (allocsOf d.triple (pushAll d m l).2 - allocsOf d.triple m - 1) ≤ d.size + l.length := by
+      have : 2 ^ (allocsOf d.triple (pushAll d m l).2 - allocsOf d.triple m - 1) * 1 ≤
+          2 ^ (allocsOf d.triple (pushAll d m l).2 - allocsOf d.triple m - 1) * d.cap := Nat.mul_le_mul_left _ hc
+      omega
+    have hne : d.size + l.length ≠ 0 := by
+      have : 0 < 2 ^ (allocsOf d.triple (pushAll d m l).2 - allocsOf d.triple m - 1) := Nat.pow_pos (by omega)
+      omega
+    have := (Nat.le_log2 hne).mpr h4
+    omega
+  · omega
+
+/-- one insertion under a never-refusing allocator (C-library triple, or exhausted schedule) below the
+capacity limit: always `CC_OK` -/
+theorem pushEnd_step (d : Deque) (fx : Bool × Nat) (m : Mem) (hi : d.Inv) (hn : neverRefuses d.triple m)
+    (hb : d.size < Gen.MAX_POW_TWO) :
+    (pushEnd d fx m).1 = .ok ∧ (pushEnd d fx m).2.1.Inv ∧ (pushEnd d fx m).2.1.size = d.size + 1 ∧
+    (pushEnd d fx m).2.1.abs = (if fx.1 then fx.2 :: d.abs else d.abs ++ [fx.2]) ∧
+    neverRefuses d.triple (pushEnd d fx m).2.2 ∧
+    (d.size < d.cap → (pushEnd d fx m).2.1.cap = d.cap ∧
+      allocsOf d.triple (pushEnd d fx m).2.2 = allocsOf d.triple m) ∧
+    (¬ d.size < d.cap → (pushEnd d fx m).2.1.cap = dbl d.cap ∧
+      allocsOf d.triple (pushEnd d fx m).2.2 = allocsOf d.triple m + 1) := by
+  have hsz := hi.2.2.2.2.2
+  rcases pushEnd_cases d fx m hi with ⟨s1, s2, s3, s4, s5⟩ | ⟨_, _, _, _, s5, s6⟩
+  · have hsize : (pushEnd d fx m).2.1.size = d.size + 1 := by
+      have := congrArg List.length s3
+      rw [abs_length] at this
+      rw [this]; split <;> simp
+    refine ⟨s1, s2, hsize, s3, memD_neverRefuses s4 hn, fun h => ?_, fun h => ?_⟩
+    · rcases s5 with ⟨_, c2, c3⟩ | ⟨c1, _, _⟩
+      · exact ⟨c2, c3⟩
       · omega
-  · simp only [if_true]
-    rcases addFirst_spec d fx.2 m hi with ⟨a1, a2, a3, a4, a5, _⟩ | ⟨_, _, _, a4, a5⟩
-    · have hm := hmem (d.addFirst fx.2 m) a1 (by rw [hfx]; simp)
-      have hsize : (d.addFirst fx.2 m).2.1.size = d.size + 1 := by
-        have := congrArg List.length a3; simpa using this
-      refine ⟨a1, a2, hsize, a3, a4.2.2.2 hs, fun h => ⟨by rw [a5, if_neg (by omega)], hm.1 h⟩,
-        fun h => ⟨by rw [a5, if_pos (by omega)]; rfl, hm.2 h⟩⟩
-    · exfalso
-      rcases a5 with a5 | a5
-      · rw [a5] at al1; exact absurd al1 (by decide)
-      · omega
+    · rcases s5 with ⟨c1, _, _⟩ | ⟨_, c2, c3⟩
+      · exact absurd c1 h
+      · exact ⟨c2, c3⟩
+  · exfalso
+    rcases s6 with s6 | s6
+    · have := (allocT_of_neverRefuses d.triple m hn).1
+      rw [s6] at this; exact absurd this (by decide)
+    · omega
 
 /-- **the deque's growth is the abstract doubling process**: after any run of `n` insertions at the ends
 (never-refusing allocator, below the capacity limit) size, capacity and the number of allocator calls are
 those of `Growth.appends dbl size capacity n` -/
-theorem pushAll_growth (l : List (Bool × Nat)) (d : Deque) (m : Mem) (hi : d.Inv) (hs : m.sched = [])
+theorem pushAll_growth (l : List (Bool × Nat)) (d : Deque) (m : Mem) (hi : d.Inv) (hn : neverRefuses d.triple m)
     (hb : d.size + l.length ≤ Gen.MAX_POW_TWO) :
     (pushAll d m l).1.Inv ∧ (pushAll d m l).1.abs = pushAllSpec d.abs l ∧
     (pushAll d m l).1.size = (Growth.appends dbl d.size d.cap l.length).size ∧
     (pushAll d m l).1.cap = (Growth.appends dbl d.size d.cap l.length).cap ∧
-    (pushAll d m l).2.nalloc = m.nalloc + (Growth.appends dbl d.size d.cap l.length).reallocs ∧
-    (pushAll d m l).2.sched = [] := by
+    allocsOf d.triple (pushAll d m l).2 =
+      allocsOf d.triple m + (Growth.appends dbl d.size d.cap l.length).reallocs := by
   induction l generalizing d m with
-  | nil => exact ⟨hi, rfl, rfl, rfl, rfl, hs⟩
+  | nil => exact ⟨hi, rfl, rfl, rfl, rfl⟩
   | cons fx rest ih =>
     simp only [List.length_cons] at hb
-    obtain ⟨s1, s2, s3, s4, s5, s6, s7⟩ := pushEnd_step d fx m hi hs (by omega)
-    obtain ⟨r1, r2, r3, r4, r5, r6⟩ := ih (pushEnd d fx m).2.1 (pushEnd d fx m).2.2 s2 s5 (by omega)
+    have htr := pushEnd_triple d fx m
+    obtain ⟨s1, s2, s3, s4, s5, s6, s7⟩ := pushEnd_step d fx m hi hn (by omega)
+    obtain ⟨r1, r2, r3, r4, r5⟩ := ih (pushEnd d fx m).2.1 (pushEnd d fx m).2.2 s2 (by rw [htr]; exact s5)
+      (by omega)
     simp only [pushAll, pushAllSpec, List.length_cons]
     rw [s4] at r2
+    rw [htr] at r5
     unfold Growth.appends
     by_cases hlt : d.size < d.cap
     · rw [if_pos hlt]
       obtain ⟨c1, c2⟩ := s6 hlt
       rw [s3, c1] at r3 r4 r5
       rw [c2] at r5
-      exact ⟨r1, r2, r3, r4, r5, r6⟩
+      exact ⟨r1, r2, r3, r4, r5⟩
     · rw [if_neg hlt]
       obtain ⟨c1, c2⟩ := s7 hlt
       rw [s3, c1] at r3 r4 r5
       rw [c2] at r5
-      exact ⟨r1, r2, r3, r4, by simp only; omega, r6⟩
-
-/-- **O(log n) buffer re-allocations**: `n` insertions at the ends of a deque holding `size` elements make
-at most `log2 (size + n) + 1` allocator calls, whatever the initial capacity and ring layout -/
-theorem pushAll_realloc_log (l : List (Bool × Nat)) (d : Deque) (m : Mem) (hi : d.Inv) (hs : m.sched = [])
-    (hb : d.size + l.length ≤ Gen.MAX_POW_TWO) :
-    (pushAll d m l).2.nalloc - m.nalloc ≤ Nat.log2 (d.size + l.length) + 1 := by
-  obtain ⟨_, _, _, _, r5, _⟩ := pushAll_growth l d m hi hs hb
-  have := Growth.reallocs_le_log dbl (fun c => Nat.le_refl _) d.size d.cap l.length hi.2.2.2.2.2 (Inv.cap_pos hi)
-  omega
+      exact ⟨r1, r2, r3, r4, by simp only; omega⟩
 
 end CC.Deque
